@@ -384,7 +384,16 @@ def merge_render_with_diff3(b, l, r, strategy=None):
         return r, 0
     elif strategy is not None:
         warning("Using diff3 but ignoring strategy %s", strategy)
+    # diff3 -m writes an unterminated last line and the following conflict
+    # marker on one line ("x||||||| base"), so make sure every text ends
+    # with a newline, and take it off again from a clean merge of two
+    # unterminated texts
+    b, l, r = as_text(b), as_text(l), as_text(r)
+    unterminated = [bool(t) and not t.endswith("\n") for t in (b, l, r)]
+    b, l, r = [t + "\n" if u else t for t, u in zip((b, l, r), unterminated)]
     merged, status = external_merge_render(cmd.split(), b, l, r)
+    if status == 0 and unterminated[1] and unterminated[2] and merged.endswith("\n"):
+        merged = merged[:-1]
     return merged, status
 
 
